@@ -720,7 +720,7 @@ class Run:
                 for j in range(8):
                     bit = (op["bit"] + j) % 8
                     zeros = [b for b in range(4, 12) if not hdr[b] >> bit & 1]
-                    ones = [b for b in range(4, 16) if hdr[b] >> bit & 1]
+                    ones = [b for b in range(4, 12) if hdr[b] >> bit & 1]  # (bytes 12..15 of a LOAD carry the CRC of randomly padded data)
                     if zeros and ones and (len(zeros) > 1 or zeros != ones):
                         a_ = zeros[op["r"] // 7 % len(zeros)]
                         b_ = [b for b in ones if b != a_][op["r"] // 11 % len([b for b in ones if b != a_])]
